@@ -5,6 +5,7 @@ import pywt
 from fractions import Fraction
 import symtorch
 from symtorch import poly as P, tensor as T
+from symtorch.poly import Poly
 from vlib import core, smt, lincheck
 from harness import dwtlib as D, dtlib as DT
 from harness import C07
@@ -50,6 +51,12 @@ def configs(tier, seed):
             out.append(dict(b, check='quant', B=1, C=1))
             for view in ('step2', 'transposed', 'chanslice', 'flipbatch'):
                 out.append(dict(b, check='view', view=view, B=2, C=2))
+    out.append(dict(kind='scat1', check='quant_scat', biort='near_sym_a', magbias=0.01, H=4, W=4))
+    out.append(dict(kind='scat1', check='quant_scat', biort='near_sym_b', magbias=0.01, H=4, W=4))
+    out.append(dict(kind='scat2', check='quant_scat', biort='near_sym_a', qshift='qshift_a', magbias=0.01, H=8, W=8))
+    if tier == 'thorough':
+        out.append(dict(kind='scat2', check='quant_scat', biort='near_sym_b_bp', qshift='qshift_b_bp', magbias=0.01, H=8, W=8))
+        out.append(dict(kind='scat1', check='quant_scat', biort='antonini', magbias=1.0, H=6, W=6))
     return out
 
 
@@ -235,6 +242,117 @@ def _run_quant(res, cfg):
     return res
 
 
+def _scat_layer(pw, cfg):
+    kw = dict(biort=cfg['biort'], magbias=cfg['magbias'], combine_colour=False)
+    if cfg['kind'] == 'scat2':
+        kw['qshift'] = cfg['qshift']
+        return pw.ScatLayerj2(**kw)
+    return pw.ScatLayer(**kw)
+
+
+def _build_scat(pw, cfg, prec):
+    tt = C07._tt(pw)
+    prev = tt.get_default_dtype()
+    try:
+        tt.set_default_dtype(tt.float32 if prec == 'float32' else tt.float64)
+        return _scat_layer(pw, cfg)
+    finally:
+        tt.set_default_dtype(prev)
+
+
+def _run_quant_scat(res, cfg):
+    """float32-constructed scattering layer vs float64 one, exact arithmetic, on small inputs (|x| <= s) where the bias dominates:
+    the two expression DAGs are compared sqrt atom by sqrt atom (|q32 - q64| <= 2 b tau_r  =>  |r32 - r64| <= tau_r) and output by output."""
+    rt = symtorch.real_torch()
+    b = cfg['magbias']; bF = Fraction(float(b))
+    eps32 = 2.0 ** -23
+    facts = dict(check='quant', kind=cfg['kind'])
+    H, W = cfg['H'], cfg['W']
+    stt = smt.Stats()
+    for s_ in cfg.get('scales', [0.01, 0.001]):
+        core.begin()
+        sF = Fraction(s_).limit_denominator(10 ** 6)
+        with symtorch.symbolic():
+            st = symtorch.shim()
+            x, ids = core.symin((1, 1, H, W), dtype=st.float64)
+            P.PURIFY_LINEAR[0] = 0
+            n0 = len(P.ATOMS)
+            so64 = core.outcome(lambda: _build_scat(symtorch.sym(), cfg, 'float64')(x))
+            n1 = len(P.ATOMS)
+            P.ATOMS.memo.clear()
+            l32 = _build_scat(symtorch.sym(), cfg, 'float32')
+            x32 = T.Tensor(x.a, st.float32)          # the same atoms, tagged float32: dtype-dependent code takes its float32 branch
+            so32 = core.outcome(lambda: l32(x32))
+            n2 = len(P.ATOMS)
+        res.funcs = sorted(set(res.funcs) | T.STATE.funcs_entered)
+        if so64[0] != 'ok' or so32[0] != 'ok':
+            if 'unsupported' in (so64[0], so32[0]):
+                res.status = 'inconclusive'; res.notes.append(str((so64[:2], so32[:2]))); return res
+            res.status = 'skipped'; res.notes.append('layer raises: %s %s' % (so64[:2], so32[:2])); return res
+        Z64, Z32 = so64[1].a.reshape(-1), so32[1].a.reshape(-1)
+        sq64 = [a for a in range(n0, n1) if P.ATOMS.kind[a] == 'sqrt']
+        sq32 = [a for a in range(n1, n2) if P.ATOMS.kind[a] == 'sqrt']
+        if len(sq64) != len(sq32) or len(Z64) != len(Z32):
+            res.status = 'inconclusive'; res.notes.append('float32 and float64 runs have different structure (%d vs %d sqrt atoms)' % (len(sq32), len(sq64))); return res
+        solver = smt.Solver(stats=stt, default_box=(-sF, sF))
+        # gain of the linear part
+        gain = 1.0
+        for p in Z64:
+            if p.is_linear():
+                gain = max(gain, sum(abs(float(v)) for k, v in p.t.items() if k))
+        tau_r = Fraction(64 * eps32 * (gain * float(s_) + float(b))).limit_denominator(10 ** 18)      # outputs
+        tau_i = tau_r / 8                                                                                # inner magnitudes (error budget of the cascade)
+        tau_q = 2 * bF * tau_i if b > 0 else tau_i * tau_i
+        solver.auto_bounds(sq64, floor=bF)
+        mapping = {}; mapping64 = {}
+        bad = None
+        for a32, a64 in zip(sq32, sq64):
+            q32 = P.ATOMS.info[a32].subst(mapping); q64 = P.ATOMS.info[a64].subst(mapping64)
+            inner = all(P.ATOMS.kind[z] == 'in' for z in P.ATOMS.info[a64].atoms())
+            tq = tau_q if inner else (2 * bF * tau_r if b > 0 else tau_r * tau_r)
+            v, model = solver.decide(q32 - q64, tq, label='radicand of sqrt atom %d' % a64, grid_bits=64)
+            res.nontrivial = True
+            if v == 'sat':
+                bad = ('radicand', a64, model); break
+            if v != 'unsat':
+                res.status = 'inconclusive'; res.notes.append('solver answered %s' % v); return res
+            # later stages see the magnitude m = r - b (small on small inputs), not r: re-parametrise r64 = b + m, r32 = b + m + delta
+            dlt = P.ATOMS.new('free', ('sqrt difference', tau_i))
+            hi = solver.bound(a64)[1]
+            m = P.ATOMS.new('free', ('magnitude', hi - bF))
+            solver.set_box(m, 0, hi - bF)
+            mapping64[a64] = Poly.const(bF) + Poly.var(m)
+            mapping[a32] = Poly.const(bF) + Poly.var(m) + Poly.var(dlt)
+        if bad is None:
+            for e, (p32, p64) in enumerate(zip(Z32, Z64)):
+                d = p32.subst(mapping) - p64.subst(mapping64)
+                v, model = solver.decide(d, tau_r * 4, label='output %d' % e, grid_bits=64)
+                if v == 'sat':
+                    bad = ('output', e, model); break
+                if v != 'unsat':
+                    res.status = 'inconclusive'; res.notes.append('solver answered %s' % v); return res
+        if bad is not None:
+            # replay on the real layers in their own precisions, at the model's input and at structured small inputs
+            rng = np.random.default_rng(3)
+            cands = [core.model_array(bad[2], ids), np.zeros((1, 1, H, W)), rng.uniform(-s_, s_, size=(1, 1, H, W)), np.full((1, 1, H, W), float(s_))]
+            worst = 0.0; wx = None
+            l32r = _build_scat(symtorch.real(), cfg, 'float32'); l64r = _build_scat(symtorch.real(), cfg, 'float64')
+            for xc in cands:
+                z32 = l32r(rt.tensor(xc, dtype=rt.float32)).detach().double().numpy(); z64 = l64r(rt.tensor(xc, dtype=rt.float64)).detach().numpy()
+                bound = 64 * eps32 * (gain * float(np.abs(xc).max()) + float(b))
+                r = float(np.abs(z32 - z64).max()) / bound
+                if r > worst:
+                    worst, wx = r, xc
+            res.status = 'violation'
+            res.violations.append(dict(what='float32 scattering output deviates from float64 by %.3g x the bound 64*eps32*(gain*max|x| + magbias) (%s %s, input scale %g)'
+                                       % (worst, bad[0], bad[1], s_), facts=facts, replay=dict(kind='quant_scat', x=(wx if wx is not None else cands[0]).tolist()), reproduced=worst > 1.0))
+            res.stats = stt
+            return res
+    res.stats = stt
+    res.validated = 0.0
+    return res
+
+
 def _views(tt, view, t):
     """(non-contiguous view of a wider tensor whose values are those of t, contiguous copy)"""
     if view == 'step2':
@@ -273,6 +391,8 @@ def run_config(cfg):
     if cfg['check'] == 'dtype':
         core.begin(default64=False)
         return _run_dtype(res, cfg)
+    if cfg['check'] == 'quant_scat':
+        return _run_quant_scat(res, cfg)
     if cfg['check'] == 'quant':
         return _run_quant(res, cfg)
     specs, a, b = _view_case(cfg)
